@@ -36,7 +36,7 @@ ROUTES = ("ctor", "attr", "parse", "from_dict", "inplace")
 
 
 def plan(tier, seed):
-    items = corpus.value_items(tier, seed, 8 if tier == "quick" else 200)
+    items = corpus.value_items(tier, seed, 8 if tier == "quick" else 96)
     shards = []
     for i, it in enumerate(items):
         if it["kind"] == "matrix":
